@@ -16,6 +16,8 @@ CORE = "pyunicorn.core._ext.numerics"
 def product_factors(e: X) -> list:
     if e.k == "bin" and e.a[0] == "*":
         return product_factors(e.a[1]) + product_factors(e.a[2])
+    if e.k == "cast":           # <double> k * (k-1) ... : the cast widens only
+        return product_factors(e.a[1])
     return [e]
 
 
